@@ -321,7 +321,8 @@ class Texts(object):
     name = 'texts-in-literals'
     describe = ('every text-bearing clause slot of C15 (DESCRIPTION / REFERENCE of each clause kind, ORGANIZATION, CONTACT-INFO, '
                 'UNITS, DISPLAY-HINT, PRODUCT-RELEASE, revision descriptions) x adversarial texts (backslash sequences, trailing '
-                'backslash, line breaks, apostrophes, template syntax, non-ASCII, empty) x genTexts on/off: the module is valid '
+                'backslash, line breaks, apostrophes, template syntax, non-ASCII, empty) x genTexts on/off, the texts with line breaks / tabs also '
+                'under a text filter that keeps the layout: the module is valid '
                 'Python, executes with loadTexts on and off, and the real MibBuilder loads it')
 
     def blocks(self, tier):
@@ -335,6 +336,10 @@ class Texts(object):
                 continue
             for gt in (0, 1):
                 yield {'slot': block['slot'], 't': t, 'gt': gt}
+            if tname in C15.LAYOUT_NAMES:
+                # ... and with a text filter that keeps the layout (line breaks stay in the texts)
+                yield {'slot': block['slot'], 't': t, 'gt': 1, 'keep': 1}
+                yield {'slot': block['slot'], 't': t, 'gt': 0, 'keep': 1}
 
     def run_case(self, case):
         from mc.checks import C15
@@ -342,11 +347,12 @@ class Texts(object):
         tname, text = C15.TEXTS[case['t']]
         mod = refir.finish_module({'name': 'TEST-MIB', 'decls': C15.build(kind, field, text)})
         src = mibspec.pretty([mod])
-        sig = 'C04|texts|%s|%s|genTexts=%d' % (sid, tname, case['gt'])
+        sig = 'C04|texts|%s|%s|genTexts=%d%s' % (sid, tname, case['gt'], '|layout-kept' if case.get('keep') else '')
         parser = env.shared_parser('smiV1Relaxed' if kind == 'trap' else 'smiV2')
         parser.reset()
+        more = {'textFilter': lambda symbol, t: t} if case.get('keep') else {}
         res, written = env.compile_set({'TEST-MIB': src}, ['TEST-MIB'], codegen='pysnmp', dialect=parser,
-                                       genTexts=bool(case['gt']))
+                                       genTexts=bool(case['gt']), **more)
         st = res.get('TEST-MIB')
         if st != 'compiled':
             return 'notcompiled', [('%s|not-compiled' % sig, '%r %r\n%s' % (st, getattr(st, 'error', None), src))], 1
@@ -366,6 +372,31 @@ class Texts(object):
                 vs.append(('%s|real-builder-load-fails|%s' % (sig, err.split(':')[0]), '%s\nsource text %r' % (err, text)))
         return 'ok', vs, 1
 
+
+
+class LongWords(Texts):
+    name = 'long-words-with-backslashes'
+    describe = ('every text-bearing clause slot x a word far longer than any line width that is made of backslash sequences (\\u \\x \\N '
+                '\\n, 60 of them) after 0..5 plain characters, alone / after a short word, genTexts on: wherever the template breaks '
+                'lines, every alignment of a (doubled) backslash against the break is met; same oracle as texts-in-literals')
+
+    def cases(self, block, tier):
+        for esc in 'uxNn':
+            for k in range(6):
+                for lead in (0, 1):
+                    yield {'slot': block['slot'], 'esc': esc, 'k': k, 'lead': lead, 'gt': 1}
+
+    def text_of(self, case):
+        return ('see ' if case['lead'] else '') + 'a' * case['k'] + ('\\' + case['esc']) * 60
+
+    def run_case(self, case):
+        from mc.checks import C15
+        text = self.text_of(case)
+        C15.TEXTS.append(('long-bs-%s' % case['esc'], text))
+        try:
+            return Texts.run_case(self, dict(case, t=len(C15.TEXTS) - 1))
+        finally:
+            C15.TEXTS.pop()
 
 
 class AccessWords(object):
@@ -569,4 +600,4 @@ def _option_histories():
     return OptionHistories()
 
 
-FAMILIES = [Sequences(), CrossModule(), Identifiers(), TypeChains(), Texts(), AccessWords(), NoImportsClause(), EnumLengths(), SingleValueConstraints(), LoadTogether(), _option_histories()]
+FAMILIES = [Sequences(), CrossModule(), Identifiers(), TypeChains(), Texts(), LongWords(), AccessWords(), NoImportsClause(), EnumLengths(), SingleValueConstraints(), LoadTogether(), _option_histories()]
